@@ -393,6 +393,41 @@ def run_witness(binpath, w):
                 bad_items.append("only %d positions reported for %d inputs (each input should raise an error with a position)" % (n_pos, len(srcs)))
             return {"cmd": "reftest-json-session <%d inputs>" % len(srcs), "exit": p.returncode, "stdout": p.stdout[-600:], "stderr": p.stderr[-300:],
                     "reproduced": bool(bad_items), "why": "; ".join(bad_items[:4])[:1500], "n_inputs": len(srcs), "failing_inputs": failing[:4]}
+        elif kind == "rename-corpus":
+            # C19 bounded stand-in: each item renames the variable at `offset` (the first occurrence of `at`) to a
+            # fresh name; the renamed program must print what the original printed, and exactly `count`
+            # occurrences must have been rewritten
+            bad_items, failing = [], []
+            for idx, it in enumerate(w["input"]):
+                src_ = it["src"]
+                off = src_.encode("utf-8").find(it["at"].encode("utf-8")) + it.get("delta", 0)
+                f = os.path.join(tmpdir, "c%d.gdn" % idx)
+                open(f, "w", encoding="utf-8").write(src_)
+                try:
+                    r0 = subprocess.run([binpath, "run", f], capture_output=True, text=True, timeout=30, cwd=tmpdir)
+                    p = subprocess.run([binpath, "reftest-rename", f, str(off), "--new-name", "zz_renamed"], capture_output=True, text=True, timeout=30, cwd=tmpdir)
+                    why = None
+                    if p.returncode == 101 or "panicked at" in p.stderr:
+                        why = "rename panicked: " + p.stderr[-160:]
+                    elif p.returncode != 0:
+                        why = "rename failed: " + (p.stderr or p.stdout)[-160:]
+                    else:
+                        new = p.stdout
+                        n = len(re.findall(r"\bzz_renamed\b", new))
+                        f2 = os.path.join(tmpdir, "c%d_renamed.gdn" % idx)
+                        open(f2, "w", encoding="utf-8").write(new)
+                        r1 = subprocess.run([binpath, "run", f2], capture_output=True, text=True, timeout=30, cwd=tmpdir)
+                        if n != it["count"]:
+                            why = "%d occurrences rewritten, %d refer to that variable: %r" % (n, it["count"], new[-200:])
+                        elif (r1.stdout, r1.returncode) != (r0.stdout, r0.returncode) or ("Exception" in r1.stdout + r1.stderr) != ("Exception" in r0.stdout + r0.stderr):
+                            why = "the renamed program behaves differently: %r vs %r" % ((r0.stdout + r0.stderr)[-120:], (r1.stdout + r1.stderr)[-120:])
+                except subprocess.TimeoutExpired:
+                    why = "timeout"
+                if why:
+                    bad_items.append("%s: %s" % (it.get("what", idx), why))
+                    failing.append(it)
+            return {"cmd": "reftest-rename <%d programs>" % len(w["input"]), "exit": 0, "stdout": "", "stderr": "",
+                    "reproduced": bool(bad_items), "why": "; ".join(bad_items[:3])[:1600], "n_inputs": len(w["input"]), "failing_inputs": failing[:4]}
         elif kind == "session-alive":
             # C09 bounded stand-in: each item is a list of session inputs; the session must answer every one of
             # them (one evaluate / run_command answer per request), must not panic, and must answer the last
